@@ -50,6 +50,9 @@ pub fn c03(tier: Tier) -> Vec<Case> {
         ("string", vec![Rule::normal("K", vec![Directive::String], seq(vec![lit("k"), opt(field("f", "X"))]))]),
         ("string-position", vec![Rule::normal("K", vec![Directive::String, Directive::Position], plus(lit("k")))]),
         ("char", vec![Rule::chr("K", vec![CharPart::Char(LitChar::canon('k')), CharPart::Range(LitChar::canon('a'), LitChar::canon('c'))])]),
+        ("char-any-then-rule", vec![Rule::chr("K", vec![CharPart::Ident("char".into()), CharPart::Ident("K2".into())]), Rule::chr("K2", vec![CharPart::Char(LitChar::canon('k'))])]),
+        ("char-rule-then-any", vec![Rule::chr("K", vec![CharPart::Ident("K2".into()), CharPart::Ident("char".into())]), Rule::chr("K2", vec![CharPart::Char(LitChar::canon('k'))])]),
+        ("char-any-twice", vec![Rule::chr("K", vec![CharPart::Ident("char".into()), CharPart::Char(LitChar::canon('k')), CharPart::Ident("char".into())])]),
         ("extern", vec![Rule::ext("K", "hrt::user::tok", None)]),
         ("extern-typed", vec![Rule::ext("K", "hrt::user::tokt", Some("hrt::user::Tok"))]),
         ("unit", vec![Rule::normal("K", vec![], seq(vec![lit("k"), rref("X")]))]),
